@@ -62,3 +62,12 @@ Definition commented_enum_tree : interface :=
   mkInterface (bs "a.b") []
     [ CEnum (bs "Status") [mkVariant (bs "active") [bs "The active state"]; mkVariant (bs "inactive") []] [] ]
     [] [].
+
+(* comments as the derive macros produce them from doc comments *)
+Definition derive_tree : interface :=
+  mkInterface (bs "org.example.derived")
+    [ mkMethod (bs "Get") [mkField (bs "key") (TPrim PString) [bs " The key."; bs ""; bs "   indented"]] []
+        [bs " Gets a value."; bs " "; bs " Second paragraph: with ""quotes"" and a \\ backslash."] ]
+    [ CEnum (bs "One") [mkVariant (bs "only") [bs " The only variant."]] [bs " An enum."] ]
+    [ mkError (bs "Failed") [] [bs " It failed."] ]
+    [bs " Interface docs."].
